@@ -756,7 +756,8 @@ class Walker(object):
         f = e.func
         recv = f.value
         meth = f.attr
-        codec = self.codec_of(recv, st)
+        codec = self.type_value(recv, st) if isinstance(recv, ast.IfExp) \
+            else self.codec_of(recv, st)
         if codec is not None:
             if meth in READ_METHODS and self.side == 'r':
                 return self.read_token(codec, binding, e, st)
